@@ -442,20 +442,39 @@ func writeLedgerFile(prop string, names []string) {
 }
 
 func readFindings() []Finding {
-	data, err := os.ReadFile(filepath.Join(verifDir, "known_findings.jsonl"))
+	data, err := os.ReadFile(filepath.Join(verifDir, "known_findings.txt"))
 	if err != nil {
 		return nil
 	}
 	var out []Finding
 	for _, l := range strings.Split(string(data), "\n") {
 		l = strings.TrimSpace(l)
-		if l == "" {
+		if l == "" || strings.HasPrefix(l, "#") {
 			continue
 		}
 		var f Finding
-		if json.Unmarshal([]byte(l), &f) == nil {
-			out = append(out, f)
+		switch {
+		case strings.HasPrefix(l, "fixed:"):
+			f.Status = "fixed"
+			l = strings.TrimSpace(l[len("fixed:"):])
+		case strings.HasPrefix(l, "finding:"):
+			f.Status = "finding"
+			l = strings.TrimSpace(l[len("finding:"):])
+		default:
+			continue
 		}
+		fields := strings.Fields(l)
+		for _, fl := range fields {
+			if strings.HasPrefix(fl, "property=") {
+				f.Property = fl[len("property="):]
+			}
+			if strings.HasPrefix(fl, "obligation=") {
+				f.Obligation = fl[len("obligation="):]
+			}
+		}
+		f.What = l
+		f.Witness = l
+		out = append(out, f)
 	}
 	return out
 }
